@@ -61,15 +61,27 @@ InitWith(Enables, Customs, Cks, Hds) ==
         /\ hist = << CreateMainOp(enable, custom, cookie, header, hsp) >>
 
 \* parent = 0: created where no context is provided
-CreateSub(parent, cookieOn, cookie, initial, header) == \E hsp \in HeaderSpellings :
+\* via: "init" - init_i18n_subcontext_with_options called directly; "provider" - <I18nSubContextProvider> rendered where the parent is
+\* the current context.  The locale a sub-context starts with does not depend on it; what `use_i18n()` finds afterwards does (Lookup).
+CreateSubVia(parent, cookieOn, cookie, initial, header, via) == \E hsp \in HeaderSpellings :
     /\ CookieOK(cookie)
     /\ (Len(header) < 2 => hsp = CHOOSE x \in HeaderSpellings : TRUE)
     /\ Len(ctxs) < MaxCtx /\ Len(views) < MaxViews
     /\ ctxs' = Append(ctxs, [locale |-> SubLocale(cookieOn, cookie, initial, IF parent = 0 THEN None ELSE ctxs[parent].locale, header),
                              parent |-> parent])
     /\ views' = Append(views, [ctx |-> Len(ctxs) + 1, depth |-> 0])
-    /\ hist' = Append(hist, [op |-> "create_sub", parent |-> parent, cookieOn |-> cookieOn, cookie |-> cookie, initial |-> initial, header |-> header, hsp |-> hsp])
+    /\ (via = "provider" => parent # 0)
+    /\ hist' = Append(hist, [op |-> "create_sub", parent |-> parent, cookieOn |-> cookieOn, cookie |-> cookie, initial |-> initial, header |-> header, hsp |-> hsp, via |-> via])
     /\ UNCHANGED accs
+CreateSub(parent, cookieOn, cookie, initial, header) == CreateSubVia(parent, cookieOn, cookie, initial, header, "init")
+
+\* `use_i18n()` evaluated where context c is the current one - also AFTER sub-contexts were created below it: a new handle on c
+\* itself, never on one of its sub-contexts (a provider makes its sub-context current for its children only)
+Lookup(c) ==
+    /\ Len(views) < MaxViews /\ c \in DOMAIN ctxs
+    /\ views' = Append(views, [ctx |-> c, depth |-> 0])
+    /\ hist' = Append(hist, [op |-> "lookup", ctx |-> c])
+    /\ UNCHANGED <<ctxs, accs>>
 
 \* flavours that are SUBSCRIBERS of the locale signal (a Memo, an Effect): they hold what they computed when they were last notified.
 \* A tracked set notifies every subscriber of the context's signal (through whichever view it was created), an untracked set
